@@ -561,17 +561,26 @@ def _qdisc(chk, em, f_peq):
 
 def _sort_rule(chk, f_add):
     cfg = f_add.cfg()
-    ins = [(n, c) for n, c in cfg.calls_named("append", "insert", "extend") if "registered_handlers" in src(c.func)]
+    # local aliases of the handler list (`handlers = self.registered_handlers[event]`) are the list itself
+    aliases = {t.id for a in ast.walk(f_add.node) if isinstance(a, ast.Assign) and isinstance(a.value, (ast.Subscript, ast.Attribute))
+               and "registered_handlers" in src(a.value) for t in a.targets if isinstance(t, ast.Name)}
+
+    def is_reg(e):
+        t = src(e)
+        return "registered_handlers" in t or (isinstance(e, ast.Attribute) and isinstance(e.value, ast.Name) and e.value.id in aliases) or \
+            (isinstance(e, ast.Name) and e.id in aliases)
+    ins = [(n, c) for n, c in cfg.calls_named("append", "insert", "extend") if is_reg(c.func)]
     if not ins:
         chk.missing("SORT-1", "add_handler inserts the handler into registered_handlers[event]", f_add)
         return
     sorts = []
     for n, c in cfg.calls_named("sort"):
-        if "registered_handlers" in src(c.func):
+        if is_reg(c.func):
             sorts.append((n, c))
     for n in cfg.nodes_where(lambda n: n.kind == "stmt" and isinstance(n.ast, ast.Assign)):
         v = n.ast.value
-        if isinstance(v, ast.Call) and call_attr(v) == "sorted" and "registered_handlers" in src(n.ast):
+        if isinstance(v, ast.Call) and call_attr(v) == "sorted" and ("registered_handlers" in src(n.ast) or any(
+                isinstance(y, ast.Name) and y.id in aliases for y in ast.walk(n.ast))):
             sorts.append((n, v))
     for n, c in ins:
         if call_attr(c) == "insert":
@@ -582,10 +591,9 @@ def _sort_rule(chk, f_add):
             continue
         via = [s.id for s, _ in sorts]
         # a `len(...) > 1` guard is accepted: treat its False branch as passing
+        lens = {"len(self.registered_handlers[event])"} | {"len(%s)" % a for a in aliases}
         lenf = [b.id for b in cfg.nodes_where(lambda b: b.kind == "branch" and b.value is False and
-                                              src(b.ast).replace(" ", "") in (
-                                                  "len(self.registered_handlers[event])>1",
-                                                  "len(self.registered_handlers[event])>=2"))]
+                                              src(b.ast).replace(" ", "") in {l + ">1" for l in lens} | {l + ">=2" for l in lens})]
         w = cfg.must_pass(n.id, via + lenf)
         chk.ob("SORT-1", "append to a handler list is followed by the priority sort on every path", w is None,
                f_add.where(c), path=cfg.fmt_path(w, f_add.relpath) if w else None,
@@ -910,6 +918,8 @@ def battery():
         M("twin: renamed local", E, "posted_event", "pe", None, nth=-1),
         M("conditions of a queue event evaluated once before the dispatch loop", EV, "        for handler in self.registered_handlers[event][:]:", "        for handler in [h for h in self.registered_handlers[event] if h.condition is None or h.condition.evaluate(dict(list(kwargs.items()) + list(h.kwargs.items())))]:", "DOM-2", nth=0),
         M("twin: dispatch loop over a tuple-unpacked snapshot", EV, "        for handler in self.registered_handlers[event][:]:", "        for handler, _prio in [(h, h.priority) for h in self.registered_handlers[event]]:", None, nth=0),
+        M("sort skipped when the new handler does not outrank the last one (decided before the relative priority is added)", EV, "        if len(self.registered_handlers[event]) > 1:\n            self.registered_handlers[event].sort(key=lambda x: x.priority, reverse=True)", "        if self.registered_handlers[event][-2:-1] and self.registered_handlers[event][-2].priority < priority:\n            self.registered_handlers[event].sort(key=lambda x: x.priority, reverse=True)", "SORT-1"),
+        M("twin: handler list aliased in add_handler", EV, "        self.registered_handlers[event].append(RegisteredHandler(handler, priority, kwargs, key, condition,\n                                                                 blocking_facility))", "        handlers = self.registered_handlers[event]\n        handlers.append(RegisteredHandler(handler, priority, kwargs, key, condition,\n                                                                 blocking_facility))", None),
     ]
 
 
